@@ -10,6 +10,7 @@
 From Coq Require Import ZArith.
 From VL Require Import Lib.Bytes Lib.Reg Lib.SemVer Model.Config Lib.Http Gen.GenRegistry.
 Export Lib.Http.
+From VL Require Export Lib.Text.
 
 Inductive adapter := ANpm | ACrates | AGo | AGitHub | AJsr | APypi.
 Definition all_adapters : list adapter := [ANpm; ACrates; AGo; AGitHub; AJsr; APypi].
@@ -204,17 +205,6 @@ Definition dec_pypi (j : json) : option (list bytes * list (bytes * bytes)) :=
 
 (* Go proxy: str::lines (split after each '\n'; "\n" and a preceding '\r' removed), empty lines dropped,
    sorted by Option<semver::Version> of the text after 'v' *)
-Fixpoint split_inclusive_aux (s acc : bytes) : list bytes :=
-  match s with
-  | [] => match acc with [] => [] | _ => [rev acc] end
-  | c :: t => if c =? 10 then rev (c :: acc) :: split_inclusive_aux t [] else split_inclusive_aux t (c :: acc)
-  end.
-Definition chomp (line : bytes) : bytes :=
-  match strip_suffix [10] line with
-  | None => line
-  | Some l => match strip_suffix [13] l with Some l' => l' | None => l end
-  end.
-Definition lines (s : bytes) : list bytes := map chomp (split_inclusive_aux s []).
 Definition go_key (line : bytes) : option version :=
   match strip_prefix [118] line with Some v => SemVer.parse v | None => None end.
 Definition dec_go (text : bytes) : list bytes :=
